@@ -266,6 +266,12 @@ func (p c06) check(c *fw.Ctx, steps []c06Step) (sig, detail string, nontrivial b
 	nextGroup := 0
 	for k, st := range steps {
 		src := gt.RenderOne(st.node)
+		kindBefore := map[string]string{} // operand kinds as they are BEFORE the statement (b = c + b re-binds an operand)
+		for _, v := range c06Vars {
+			if val, ok := ref.Global.Lookup(v); ok {
+				kindBefore[v] = fmt.Sprintf("%T", val)
+			}
+		}
 		bigBefore := ref.BigInPlace
 		ref.BigInPlace = false
 		rv := ref.Run([]*gt.Node{st.node})
@@ -314,7 +320,7 @@ func (p c06) check(c *fw.Ctx, steps []c06Step) (sig, detail string, nontrivial b
 			}
 		}
 		if !g.isErr {
-			c06Regroup(group, &nextGroup, st, func(name string) string {
+			c06Regroup(group, &nextGroup, st, func(name string) string { return kindBefore[name] }, func(name string) string {
 				v, ok := ref.Global.Lookup(name)
 				if !ok {
 					return ""
@@ -385,7 +391,7 @@ func c06Shares(group map[string]c06Store, v string, stmt *gt.Node) bool {
 }
 
 // c06Regroup updates the share model after a statement.
-func c06Regroup(group map[string]c06Store, next *int, st c06Step, kindOf func(string) string) {
+func c06Regroup(group map[string]c06Store, next *int, st c06Step, kindOf, kindAfter func(string) string) {
 	n := st.node
 	if n.K != gt.KAssign {
 		return
@@ -401,7 +407,7 @@ func c06Regroup(group map[string]c06Store, next *int, st c06Step, kindOf func(st
 					d[id] = true
 				}
 				// array + map appends the map as one element: it is nested, not merged
-				if withTop || kindOf(x) != kindOf(n.Name) {
+				if withTop || kindOf(x) != kindAfter(n.Name) {
 					d[g.top] = true
 				}
 			}
